@@ -312,6 +312,12 @@ def cases(tier):
         for shape in SHAPES[d]:
             for e in EDITS:
                 out.append({"grid": U.spec(cls, shape, ("I",) * d, 1), "edit": e})
+            # a second mesh with the same cell counts used in the same session first: another spacing, another
+            # length unit, another constructor form, another grid class
+            others = [U.spec(cls, shape, ("U",) * d, 0), U.spec(cls, shape, ("I",) * d, 1, -30), U.spec(cls, shape, ("L",) * d, 0)]
+            others += [U.spec(c2, shape, ("I",) * d, 1) for c2 in U.CLASSES if U.dim(c2) == d and c2 != cls]
+            for o in others:
+                out.append({"grid": U.spec(cls, shape, ("I",) * d, 1), "other": o})
     return out
 
 
@@ -405,6 +411,28 @@ def run_case(case):
     seen = set()
     F = res["findings"]
     gid = U.spec_id(spec)
+    if case.get("other"):
+        # every builder on mesh A, then on mesh B (same cell counts): B's result is the fresh-world one
+        for name in MENU:
+            wa, wb = make_world(case["other"]), make_world(spec)
+            try:
+                MENU[name](wa)
+                r = MENU[name](wb)
+            except Exception as e:  # noqa: BLE001
+                F.append({"key": "C15:cross_mesh_exception:%s" % name, "msg": "%s on %s after the same call on %s raises %s: %s"
+                          % (name, gid, U.spec_id(case["other"]), type(e).__name__, str(e)[:100]), "detail": {}})
+                continue
+            res["evals"] += 2
+            res["states"] += 2
+            res["transitions"] += 2
+            res["nontrivial"] += 1
+            if fingerprint(r) != reference(spec, name):
+                F.append({"key": "C15:cross_mesh:%s" % name,
+                          "msg": "%s on %s is not bit-identical to a fresh session when the same builder was used on %s before"
+                                 % (name, gid, U.spec_id(case["other"])), "detail": {"grid": gid, "other": U.spec_id(case["other"])}})
+        res["outcomes"] = {"cross:%s" % ("ok" if not F else "viol"): 1}
+        res["sample"] = {"grid": gid, "other": U.spec_id(case["other"])}
+        return res
     if case.get("edit"):
         _edit_case(case, res)
         res["outcomes"] = {"edit:%s" % ("ok" if not F else "viol"): 1}
